@@ -45,8 +45,12 @@ def write(env, build_inputs):
     rule_handler.run(build_inputs.edges(), build_inputs, buildfile, env)
     post_rules_hook.run(build_inputs, buildfile, env)
 
-    with open(filepath.string(env.base_dirs), 'w') as out:
+    # Write to a temporary file first so that an interrupted run can't leave a
+    # truncated build file (which would look up to date to the backend).
+    filename = filepath.string(env.base_dirs)
+    with open(filename + '.tmp', 'w') as out:
         buildfile.write(out)
+    os.replace(filename + '.tmp', filename)
 
 
 def flags_vars(name, value, buildfile):
